@@ -69,7 +69,8 @@ def cross_process_stream(HBIN, DBIN, workdir, seed, tier, run_stream):
     return run_stream("xproc", ["cat", path], workdir)
 
 
-CFG = {'assumptions': ['f64 values cross the boundary as bit patterns; digests are FNV-1a/64 over the exact bit patterns, '
+CFG = {'scale_variants': False,
+ 'assumptions': ['f64 values cross the boundary as bit patterns; digests are FNV-1a/64 over the exact bit patterns, '
                        'lengths and member order of a result, so two results with equal digests are taken to be identical '
                        '(64-bit collision risk accepted)',
                        'std::collections::BTreeMap iterates in ascending key order whatever its insertion history; '
